@@ -753,6 +753,28 @@ func TestRegressionIssueDecimalsGas(t *testing.T) {
 	}
 }
 
+// issueNestedQueryCode: the memory side of the same finding.  Called without data it issues; called
+// with data (the decimals() query) it CALLCODEs an account without code with a 16 MiB return area.
+// The inner frame ends without error, evm.CallCode finds the marker GetUTXOChangeRate left in
+// evm.Issued (it does not look at its value), and starts another decimals() query on fresh 1e10
+// gas - nested up to the depth limit, 16 MiB per level (met by the thorough tier as an out-of-memory
+// death of the test process before the tracer counted the memory expansion of CALL steps as work).
+func issueNestedQueryCode() []byte {
+	return prog(func(a *asm) {
+		l := a.label()
+		a.op(evm.CALLDATASIZE).pushLabel(l).op(evm.JUMPI).pushU(1).op(evm.ISSUE, evm.STOP)
+		a.dest(l).pushU(32).pushU(1 << 24).pushU(0).pushU(0).pushU(0).pushAddr(ghostAddr).op(evm.GAS, evm.CALLCODE, evm.STOP)
+	})
+}
+
+func TestRegressionIssueDecimalsNestedMemory(t *testing.T) {
+	before := knownHits(kIssueGas)
+	checkCase(t, uniformCase(issueNestedQueryCode(), nil, 100000, 0, 0))
+	if vstat.IsKnown(P, kIssueGas) && knownHits(kIssueGas) == before {
+		t.Fatalf("the listed finding %s was not reproduced", kIssueGas)
+	}
+}
+
 // ---------------------------------------------------------------- seed corpus
 
 type seed struct {
@@ -846,6 +868,7 @@ func seedPrograms() []seed {
 		{"solidity-purchase-refund", purchaseContract, crypto.Keccak256([]byte("refund()"))[:4], g(3000000, 0), 0},
 		{"two-creates-jumping-init-codes", jumpdestCrashCode(), nil, g(1000000, 0), 0},
 		{"issue-then-loop-on-decimals-query", issueLoopCode(), nil, g(100000, 0), 0},
+		{"issue-then-nested-decimals-queries", issueNestedQueryCode(), nil, g(100000, 0), 0},
 		{"blockhash-env", prog(func(a *asm) {
 			a.pushU(blockNumber-1).op(evm.BLOCKHASH, evm.NUMBER, evm.TIMESTAMP, evm.COINBASE, evm.GASLIMIT, evm.DIFFICULTY, evm.GASPRICE, evm.ORIGIN, evm.CALLTOKENADDRESS, evm.CALLTOKENVALUE, evm.CALLVALUE)
 		}), nil, g(100000, 0), 7},
